@@ -258,7 +258,10 @@ func cliCorpusPass(c *Ctx, name string, lines []string, fsets []Flags, shardFlag
 		inPath := filepath.Join(dir, "corpus.log")
 		os.WriteFile(inPath, []byte(in.String()), 0o644)
 		args := append([]string{"redact", inPath}, fl.CLIArgs(key)...)
-		if fl.Y {
+		toFile := fl.Y || fi%2 == 1
+		if toFile {
+			// what an earlier, larger run left at the output path
+			os.WriteFile(filepath.Join(dir, "out.log"), []byte(strings.Repeat("{\"stale\":\"line of an earlier run\"}\n", (4*in.Len()+200000)/40)), 0o644)
 			args = append(args, "--outputFile", filepath.Join(dir, "out.log"))
 		}
 		res, err := runCLI(CLIRun{Bin: c.CLI, Args: args, Dir: dir})
@@ -267,7 +270,7 @@ func cliCorpusPass(c *Ctx, name string, lines []string, fsets []Flags, shardFlag
 			return
 		}
 		got := string(res.Stdout)
-		if fl.Y {
+		if toFile {
 			b, _ := os.ReadFile(filepath.Join(dir, "out.log"))
 			got = string(b)
 		}
